@@ -244,6 +244,45 @@ def run(ctx):
             g = guards_call(pp, c.bb, 're:Operator::is_deterministic$', True)
             ctx.inst(R, 'guarded:' + str(tgt), bool(g), '%s.%s inside the plan loop is dominated by a positive is_deterministic() guard' % (tgt, c.callee.split('::')[-1]), c.loc())
         ctx.floor(R, 'evaluation-deciding updates in prune_plan', n, 2)
+        # an operator whose subgraphs capture values from an *outer* graph (names that are not nodes of this graph) has
+        # dependencies operator_dependencies() cannot list; partial evaluation has no capture environment, so such an
+        # operator must be pruned, not kept
+        kept = [c for c in pp.calls() if call_is(c, 're:Vec::<T, A>::push$') and pp.in_loop(c.bb) and guards_call(pp, c.bb, 're:Operator::is_deterministic$', True)]
+        okc = bool(kept) and all(guards_call(pp, c.bb, 're:Graph::has_outer_captures$', False) for c in kept)
+        if not okc and kept:
+            # `let avail = !has_outer && deps.all(..); let prune = !det || !avail;` - the availability flag is the constant
+            # false on the true edge of has_outer_captures, and the keep decision is the negation of a flag computed from it
+            hcs = [c for c in pp.calls() if (c.callee or '').endswith('Graph::has_outer_captures') and pp.in_loop(c.bb)]
+            flags = set()
+            for hc in hcs:
+                t = pp.bbs[hc.target]['t'] if hc.target is not None else None
+                if not t or t[0] != 'sw' or pp.resolve_copy(t[1])[0] != 'call':
+                    continue
+                true_targets = [tb for v, tb in t[2] if int(v) != 0] + ([t[3]] if all(int(v) == 0 for v, tb in t[2]) else [])
+                for tb in true_targets:
+                    for st in pp.bbs[tb]['s']:
+                        if st[0] == '=' and st[2][0] == 'use' and st[2][1][0] == 'k' and str(st[2][1][1]) == 'false' and len(st[1]) == 1:
+                            flags.add(st[1][0])
+            def decided_by_flag(bb):
+                for g in pp.guards(bb):
+                    cd = g.cond()
+                    if cd[0] == 'place' and g.truth() is False and len(cd[1]) == 1:
+                        for d in pp.defs().get(cd[1][0], []):
+                            if d[2] == 'rv' and d[3][0] == 'un' and d[3][1] == 'Not' and (pp.resolve_copy(d[3][2])[0] in ('rv', 'place', 'call') or True):
+                                src = op_local(d[3][2])
+                                # follow one copy
+                                while src is not None and src not in flags:
+                                    dd = pp.defs().get(src, [])
+                                    if len(dd) == 1 and dd[0][2] == 'rv' and dd[0][3][0] == 'use' and op_local(dd[0][3][1]) is not None:
+                                        src = op_local(dd[0][3][1])
+                                    else:
+                                        break
+                                if src in flags:
+                                    return True
+                return False
+            okc = bool(flags) and all(decided_by_flag(c.bb) for c in kept)
+        ctx.inst(R, 'outer-captures-pruned', okc, 'an operator is kept only under !graph.has_outer_captures(op)' if okc else
+                 'prune_plan can keep an operator whose subgraphs capture values from an outer graph: those values are unavailable in partial evaluation, so constant propagation inside a subgraph runs a nested If / Loop without its captured inputs (panic at model load)', pp.loc())
     # ---- leaves: a pruned operator's already-resolved inputs must be returned by partial_run
     R = 'C04.leaves'
     if pp is not None and pp.has_mir():
